@@ -59,8 +59,10 @@ func Gen(r *hlib.Rng, idx int, p Profile) *Hist {
 		switch {
 		case x < 30:
 			h.Fates[i] = FOK
-		case x < 40:
+		case x < 37:
 			h.Fates[i] = FErr
+		case x < 40:
+			h.Fates[i] = FWrongVer
 		case x < 70 || !timeouts:
 			h.Fates[i] = FHeld
 		case x < 90:
@@ -172,6 +174,31 @@ func WriteStallCancelHist(idx, proto, variant int, coalesce bool) *Hist {
 	return h
 }
 
+// HeartbeatErrHist: answers held for 1.3 s while the node answers the heartbeat's OPTIONS with an ERROR frame.
+func HeartbeatErrHist(idx, proto, callers int) *Hist {
+	h := &Hist{Index: idx, Proto: proto, TimeoutMs: 5000, HeartbeatErr: true, HoldMs: 1300, Order: node.Order(idx % 3), OrderSeed: 2, Wave2: 3}
+	h.Fates = make([]Fate, callers)
+	h.CModes = make([]CMode, callers)
+	for i := range h.Fates {
+		h.Fates[i] = FHeld
+	}
+	return h
+}
+
+// WrongVersionHist: every answer of the first wave carries another valid protocol version in its header.
+func WrongVersionHist(idx, proto, callers int) *Hist {
+	h := &Hist{Index: idx, Proto: proto, TimeoutMs: 5000, Order: node.Order(idx % 3), OrderSeed: 2, Wave2: 4}
+	h.Fates = make([]Fate, callers)
+	h.CModes = make([]CMode, callers)
+	for i := range h.Fates {
+		h.Fates[i] = FWrongVer
+		if i%3 == 2 {
+			h.Fates[i] = FOK
+		}
+	}
+	return h
+}
+
 // Term prints the report's logs as a Coq term of type C01.Corr.case.
 func (rep *Report) Term() string {
 	var logs []string
@@ -263,6 +290,8 @@ func Emit(o *hlib.Out, reps []*Report) {
 			kind = "coalescer-cancel"
 		case h.TempErr:
 			kind = "temp-read-error"
+		case h.HeartbeatErr:
+			kind = "heartbeat-error-frame"
 		case h.TimeoutLimit > 0:
 			kind = "timeout-limit"
 		case h.Handshake != 0:
